@@ -334,6 +334,23 @@ def run(ctx):
         X3[:, used[0]] += 0.37
         if not np.array_equal(m.predict_proba(X3), P):
             ctx.count("sensitive:used_feature_changes_proba")
+        # -- the container of the query does not matter: integer-valued points given as int64 / int32 / list of ints are the
+        #    same points as their float64 copy (the cell of a point is decided by its value, not by its dtype)
+        Xi = np.round(X * 2.0).astype(np.int64)
+        Pf = m.predict_proba(Xi.astype(np.float64))
+        for label, Q in (("int64", Xi), ("int32", Xi.astype(np.int32)), ("list of int", Xi.tolist()), ("float32", Xi.astype(np.float32))):
+            try:
+                Pq = np.asarray(m.predict_proba(Q))
+            except Exception as e:
+                ctx.violation(f"predict_proba raised {type(e).__name__}: {e} on integer-valued points given as {label}", "infer",
+                              {**inp, "X_query": Xi.tolist(), "container": label}, key=f"infer:container-raise:{label}", how=HOW_INFER)
+                continue
+            ctx.count("container:" + label)
+            if not (Pq.shape == Pf.shape and np.allclose(Pq, Pf, rtol=1e-12, atol=1e-300)):
+                ctx.violation(f"the same integer-valued points give other probabilities as {label} than as float64 "
+                              f"(max difference {float(np.abs(Pq - Pf).max()):.3g})", "infer",
+                              {**inp, "X_query": Xi.tolist(), "container": label}, expected=Pf.tolist(), actual=Pq.tolist(),
+                              key=f"infer:container:{label}", how=HOW_INFER)
         # -- permuting the stored cut points changes nothing (theorem binning_perm_invariant on the real code)
         cl_perm = [(f, v[rs.permutation(len(v))]) for f, v in cl]
         m.cut_points_list_ = [(f, v.copy()) for f, v in cl_perm]
